@@ -20,6 +20,7 @@ GEN = {
     "GenEndpoint": {"tla": "GenEndpoint.tla", "cfg": "GenEndpoint.cfg"},
     "GenEndpointSim": {"tla": "GenEndpoint.tla", "cfg": "GenEndpoint_sim.cfg", "simulate_quick": "num=12", "depth": 50,
                        "simulate_thorough": "num=150"},
+    "GenAlphabet": {"tla": "GenEndpoint.tla", "cfg": "GenAlphabet.cfg"},
     "GenDecode": {"tla": "GenDecode.tla", "cfg": "GenDecode.cfg"},
     "GenDecodeFull": {"tla": "GenDecode.tla", "cfg": "GenDecode_full.cfg"},
 }
@@ -71,7 +72,7 @@ P("C12", "model_checking",
   models=["MC_Endpoint", "MC_Link"], gen=["GenEndpoint", "GenEndpointSim"], families=["forge", "vendor_enum", "identity", "history"])
 P("C13", "model_checking",
   "non-trivial = a processed Set/Get Endpoint ID packet (accepted, rejected or corrupted) or a direct accessor call; every event with a context is an evaluation of 'nothing else changes it'; distinct = distinct (context, input)",
-  models=["MC_Endpoint", "MC_Link"], gen=["GenEndpoint", "GenEndpointSim"], families=["history", "forge", "corrupt"])
+  models=["MC_Endpoint", "MC_Link"], gen=["GenAlphabet", "GenEndpoint", "GenEndpointSim"], families=["tour", "history", "forge", "corrupt"])
 P("C14", "model_checking",
   "non-trivial = process_packet on an accepted Get Vendor Defined Message Support request with selector < n; distinct = distinct (configuration, request)",
   models=["MC_Endpoint", "MC_Link"], gen=["GenEndpoint", "GenEndpointSim"], families=["vendor_enum", "forge"])
